@@ -44,7 +44,7 @@ def main():
         os.makedirs(cov)
         env = dict(ENV, GOCOVERDIR=cov)
         runs = [["world", "-profile", p, "-n", str(a.n)] for p in PROFILES]
-        runs += [["rules", "-n", "2000"], ["pidcodec", "-n", "500"], ["c11", "-n", "300"], ["c08"], ["c15", "-n", "200"], ["c16", "-n", "60"], ["faults"], ["race", "-runs", "2"]]
+        runs += [["rules", "-n", "2000"], ["pidcodec", "-n", "500"], ["providers", "-n", "100"], ["c11", "-n", "300"], ["c08"], ["c15", "-n", "200"], ["c16", "-n", "60"], ["faults"], ["race", "-runs", "2"]]
         if os.path.exists("/verif/corpus"):
             for f in sorted(os.listdir("/verif/corpus")):
                 if f.endswith(".jsonl"):
